@@ -28,6 +28,7 @@
   **Histories** (`Model/Serial.lean`): `checkSerialSI_sound`, `checkSerial_sound` — what the judge's `ok` certifies.
 -/
 import AxVerif.Lemmas.Latch
+import AxVerif.Lemmas.Coord
 import AxVerif.Model.Serial
 import AxVerif.Thm.C04
 namespace AxVerif.C14
@@ -500,5 +501,48 @@ def exPending : Pending :=
 
 example : checkSerialSI exRender exCat 1000 exPending = true := by decide
 example : checkSerial exRender exCat 1000 exPending = true := by decide
+
+
+/-! ## `begin` is one step -/
+
+open AxVerif.Coord in
+/-- **Snapshots are sound when `begin` is atomic** (the repaired coordinator).  In every reachable state — any number of
+    transactions beginning, committing and aborting in any order — whatever a snapshot counts as "committed before me"
+    (`Snapshot::is_committed_before_snapshot`) is a transaction that is committed. -/
+theorem begin_atomic_snapshots_sound (σ : Coord.State) (hr : Coord.Reachable Coord.Defects.none σ)
+    (s : Coord.Snap) (hs : s ∈ σ.snaps) (x : Nat) (hcb : s.cb x = true) :
+    Coord.statusOf σ.table x = some .committed :=
+  (Coord.inv_reachable hr).sound s hs x hcb
+
+/-- transaction 1 takes its id and is preempted; transaction 2 begins and commits; transaction 3 takes its id and its
+    snapshot: 1 is not registered, hence not in the active set, and 1 ≤ xmax = 2 -/
+def beginRaceOps : List Coord.Op := [.alloc, .alloc, .snap 2, .register 2, .commit 2, .alloc, .snap 3]
+
+/-- **Witness of the shipped defect.**  With the three steps of `begin` interleavable, a snapshot is reached that counts a
+    transaction as committed which has not even been registered (its rows are read while it is open: dirty read).
+    Observed on the real code and repaired (`fix:` TransactionCoordinator::begin … in one step). -/
+theorem beginNotAtomic_witness :
+    ∃ σ, Coord.Reachable { beginNotAtomic := true } σ ∧ Coord.snapshotsSound σ = false := by
+  refine ⟨Coord.runOps { beginNotAtomic := true } Coord.State.init beginRaceOps, ?_, by decide⟩
+  have hrun : ∀ (ops : List Coord.Op) (σ : Coord.State), Coord.Reachable { beginNotAtomic := true } σ →
+      Coord.Reachable { beginNotAtomic := true } (Coord.runOps { beginNotAtomic := true } σ ops) := by
+    intro ops
+    induction ops with
+    | nil => intro σ h; simpa [Coord.runOps] using h
+    | cons op ops ih =>
+      intro σ h
+      unfold Coord.runOps
+      cases hs : Coord.step { beginNotAtomic := true } σ op with
+      | none => exact h
+      | some σ' => exact ih σ' (Coord.Reachable.step h hs)
+  exact hrun _ _ Coord.Reachable.init
+
+/-- the same operations are impossible with the atomic `begin`: its three steps do not exist as separate operations -/
+example : Coord.step Coord.Defects.none Coord.State.init .alloc = none := by decide
+
+/-- non-trivial reachable state of the atomic coordinator: two open transactions, one committed, one aborted, and the
+    snapshots are sound -/
+example : Coord.snapshotsSound (Coord.runOps Coord.Defects.none Coord.State.init
+    [.begin, .begin, .commit 2, .begin, .abort 1, .begin, .commit 3, .begin]) = true := by decide
 
 end AxVerif.C14
